@@ -449,7 +449,9 @@ def h_rtw(dl: int, elo: int, has2: bool, good_we: bool, renewing: bool, tl: int,
     pre: X.mutable_inv(dl, elo) and dl <= B["size_max"] and nlkind == B["nlkind"] and good_we == (B["good_we"] == 1)
     pre: 0 <= tl and 0 <= so and 0 <= sl and 0 <= wo and 0 <= wl and wo + wl <= MAX_SIZE and 0 <= newlen and 0 <= ro and 0 <= rl and 0 <= p
     pre: (B.get("create1") is None or create1 == (B["create1"] == 1)) and (B.get("has2") is None or has2 == (B["has2"] == 1))
-    pre: B.get("vary") != "write" or (tl == 0 and so == 0 and sl == 0 and ro == 0 and rl == 1 and p == 0 and _wshape(dl, wo, wl) == B["wshape"])
+    pre: B.get("vary") != "write" or (tl == 0 and so == 0 and sl == 0 and ro == 0 and rl == 1 and p == 0 and elo == DATA_OFFSET + dl)
+    pre: B.get("renewing") is None or renewing == (B["renewing"] == 1)
+    pre: B.get("dl") is None or (dl == B["dl"] and elo == DATA_OFFSET + B["dl"] + 10)
     pre: B.get("vary") != "test" or (wo == dl and wl == 3 and elo == DATA_OFFSET + dl and ro == 0 and rl == 1 and p == 0)
     pre: B.get("vary") != "read" or (wo == dl and wl == 3 and elo == DATA_OFFSET + dl and tl == 0 and so == 0 and sl == 0)
     post: _ == True
